@@ -1,0 +1,25 @@
+//go:build verif
+// +build verif
+
+package terminfo
+
+// VerifTerminfos returns a copy of the registry map (name or alias ->
+// entry).  The entries themselves are the registered pointers, so a
+// verification harness can snapshot and restore them.  It exists only
+// under the "verif" build tag.
+func VerifTerminfos() map[string]*Terminfo {
+	dblock.Lock()
+	defer dblock.Unlock()
+	m := make(map[string]*Terminfo, len(terminfos))
+	for k, v := range terminfos {
+		m[k] = v
+	}
+	return m
+}
+
+// VerifResetStatics clears the cross-call static variables of TParm.
+func VerifResetStatics() {
+	for i := range svars {
+		svars[i] = ""
+	}
+}
